@@ -83,6 +83,14 @@ def c18_heights(args):
                 hs.append({'h': h, 'len': ln2, 'val': -2})
     nb = []
     bounds = [k for k in range(lo, hi + 1) if (k % 100 == 0 and k <= 10000) or (k % 1000 == 0 and k > 10000)]
+    # values a few hundredths of a foot around every boundary (bases are interpolated percentiles): h100 = centi-feet
+    near = []
+    for k in bounds:
+        if k == 0:
+            continue
+        for off in (-50, -6, -5, -4, -1, 1, 5):
+            ln, val = _hcode((100 * k + off) / 100.0)
+            near.append({'h100': 100 * k + off, 'len': ln, 'val': val})
     for k in bounds:
         if k == 0:
             continue
@@ -90,7 +98,7 @@ def c18_heights(args):
             x = float(np.nextafter(float(k), -np.inf if side < 0 else np.inf))
             ln, val = _hcode(x)
             nb.append({'k': k, 'side': side, 'len': ln, 'val': val})
-    return {'hs': hs, 'nb': nb}
+    return {'hs': hs, 'nb': nb, 'near': near}
 
 
 def c18_codes(_):
